@@ -547,6 +547,8 @@ def enum_edit_scenarios(ctx, out):
     n = 40 if ctx.tier != 'thorough' else 600
     cnt = 0
     NAMES = ['RED', 'GREEN', 'BLUE', 'AMBER', 'PINK', 'red']
+    enum_model = common.Model()
+    model_cases = 0
     for it in range(n):
         En = E.EEnum('En', literals=['RED', 'GREEN'])
         Other = E.EEnum('Other', literals=['RED', 'BIG'])
@@ -557,6 +559,17 @@ def enum_edit_scenarios(ctx, out):
         hist = []
         failed = False
         removed_literals = []
+        # the same history for the Coq model (Model/EnumEdit.v, run_enum): literal ids, interned names
+        lid = {id(l): i for i, l in enumerate(En.eLiterals)}
+        keep_alive = list(En.eLiterals)
+        nid = lambda x: (NAMES + ['ZZ', 'YY']).index(x)   # noqa: E731
+        items, impl_bits, what = [], [], []
+
+        def lit_id(l):
+            if id(l) not in lid:
+                lid[id(l)] = len(lid) + 50
+                keep_alive.append(l)
+            return lid[id(l)]
         for step in range(rng.randrange(2, 7)):
             k = rng.choice(['rename', 'append', 'extend', 'remove', 'clear', 'none'])
             try:
@@ -564,24 +577,43 @@ def enum_edit_scenarios(ctx, out):
                 if k == 'rename' and cur:
                     lit = rng.choice(cur)
                     new = rng.choice([x for x in NAMES if x not in [c.name for c in cur]] or ['ZZ'])
+                    items += [1, lit_id(lit), nid(new)]
                     lit.name = new
                 elif k == 'append':
                     nm = rng.choice([x for x in NAMES if x not in [c.name for c in cur]] or ['YY'])
-                    En.eLiterals.append(E.EEnumLiteral(name=nm, value=len(cur) + 10))
+                    nl = E.EEnumLiteral(name=nm, value=len(cur) + 10)
+                    items += [2, lit_id(nl), nid(nm)]
+                    En.eLiterals.append(nl)
                 elif k == 'extend':
                     free = [x for x in NAMES if x not in [c.name for c in cur]][:2]
-                    En.eLiterals.extend([E.EEnumLiteral(name=x, value=20 + i) for i, x in enumerate(free)])
+                    nls = [E.EEnumLiteral(name=x, value=20 + i) for i, x in enumerate(free)]
+                    for nl in nls:
+                        items += [2, lit_id(nl), nid(nl.name)]
+                    En.eLiterals.extend(nls)
                 elif k == 'remove' and len(cur) > 1:
                     lit = rng.choice(cur)
-                    En.eLiterals.remove(lit)
                     removed_literals.append(lit)
+                    items += [3, lit_id(lit)]
+                    impl_bits.append(None)
+                    what.append(('remove', lit.name))
+                    En.eLiterals.remove(lit)
                 elif k == 'clear' and rng.random() < 0.3:
                     removed_literals += cur
+                    items += [4]
                     En.eLiterals.clear()
             except Exception as e:  # noqa  (an edit that raises is not this property's subject; what the
                 hist.append(['edit', k, type(e).__name__])   # enumeration holds afterwards still decides conformance)
             hist.append(['edit', k, [c.name for c in En.eLiterals]])
             names_now = [c.name for c in En.eLiterals]
+            # EEnum.__contains__ asked directly, for every name and every literal object seen so far
+            for x in NAMES:
+                items += [5, nid(x)]
+                impl_bits.append(1 if x in En else 0)
+                what.append(('name in enum', x))
+            for l in list(keep_alive):
+                items += [6, lit_id(l)]
+                impl_bits.append(1 if l in En else 0)
+                what.append(('literal in enum', l.name))
             cands = [('name', x) for x in NAMES] + [('literal', c) for c in En.eLiterals] + \
                 [('literal-of-other-enum', Other.eLiterals[0])] + [('removed-literal', c) for c in removed_literals[-2:]]
             rng.shuffle(cands)
@@ -592,6 +624,9 @@ def enum_edit_scenarios(ctx, out):
                 ok = (v in names_now) if kind == 'name' else (kind == 'literal')
                 raised = _store(E, h, 'many' if many else 'one', many, path, v, keep=False)
                 cnt += 1
+                items += ([5, nid(v)] if kind == 'name' else [6, lit_id(v)])
+                impl_bits.append(1 if raised is None else 0)
+                what.append(('store', path, v if kind == 'name' else v.name))
                 shown = v if kind == 'name' else f'<{kind} {v.name}>'
                 hist.append(['store', 'used' if h is used else 'fresh', path, shown, raised])
                 case = {'scenario': 'enum', 'seed': ctx.seed, 'tier': ctx.tier, 'history': [list(x) for x in hist]}
@@ -610,6 +645,16 @@ def enum_edit_scenarios(ctx, out):
                     used.many.clear()
             if failed:
                 break
+        if not failed:
+            mo = enum_model.ask('enum', [2, nid('RED'), nid('GREEN')] + items)
+            model_cases += 1
+            if len(mo) != len(impl_bits) or any(b is not None and b != m for b, m in zip(impl_bits, mo)):
+                j = next((i for i, (b, m) in enumerate(zip(impl_bits, mo)) if b is not None and b != m), None)
+                out.diff(f'enum model vs implementation: answer {j} ({what[j] if j is not None else "length"}) differs: '
+                         f'model {mo} implementation {impl_bits}',
+                         {'scenario': 'enum', 'seed': ctx.seed, 'tier': ctx.tier, 'history': [list(x) for x in hist]})
+    enum_model.close()
+    out.coverage['enum_histories_compared_with_model'] = model_cases
     # a name redefined in a subclass with another type
     shadow = 0
     for it in range(12 if ctx.tier != 'thorough' else 200):
